@@ -21,8 +21,9 @@ Inductive bop :=
   | BReadObj (sz : N) (addr : N)
   | BStore (val : list N) (addr : N)              (* atomic store of a 1/2/4/8-byte integer *)
   | BLoad (sz : N) (addr : N)
-  | BReadVolFrom (src : list N) (count addr : N)      (* read_volatile_from, src: &[u8] *)
-  | BReadExactVolFrom (src : list N) (count addr : N)
+  | BReadVolFrom (chunk : N) (src : list N) (count addr : N)   (* read_volatile_from, src: in-memory byte stream
+                                                                    handing out at most chunk >= 1 bytes per call *)
+  | BReadExactVolFrom (chunk : N) (src : list N) (count addr : N)
   | BWriteVolTo (dst : list N) (count addr : N)       (* write_volatile_to, dst: Vec<u8> *)
   | BWriteAllVolTo (dst : list N) (count addr : N).
 
@@ -114,11 +115,11 @@ Definition ok_step (pre : smem) (op : bop) (o : sobs) : bool :=
       smem_eqb (s_mem o) pre &&
       (if s_k o =? 1 then (k =? sz) && leqb (s_data o) (s_gets pre a sz)
        else (s_k o =? 2) && negb (atomic_ok pre a sz))
-  | BReadVolFrom src cnt a =>
+  | BReadVolFrom _ src cnt a =>
       let n := N.min cnt (slen src) in let k := run pre a n in
       smem_eqb (s_mem o) (s_put pre a (takeN k src)) && leqb (s_data o) (dropN k src) &&
       (if n =? 0 then true else res_count k o)
-  | BReadExactVolFrom src cnt a =>
+  | BReadExactVolFrom _ src cnt a =>
       let n := N.min cnt (slen src) in let k := run pre a n in
       smem_eqb (s_mem o) (s_put pre a (takeN k src)) && leqb (s_data o) (dropN k src) &&
       (if cnt =? 0 then true else res_exact cnt k o)
